@@ -11,6 +11,7 @@ from ..common import Suite, Finding, lean_batch
 from ..probes import quiet, scratch
 from ..parallel import supervised, read_samples
 
+THOROUGH_ROUNDS = 3
 TRUSTED_EXTRA = ["C20: real operating-system scheduling is only sampled (different chain counts and run-to-run variation); the theorem covers every interleaving of the model",
                  "C20: process start (fork), pickling of the arguments and the result queue are parameters of the model"]
 ASSUMPTIONS = ["chains are started with the fork start method of `multiprocess`, as hmclab does"]
